@@ -14,7 +14,7 @@ RULE = (
     "level raises directly or in a plain helper; any subset of levels first awaits a batch item and any subset "
     "catches and re-raises; run via fn() and fn.asynq().value() on both builds: the user frames of the escaping "
     "exception's traceback must be exactly lvl0..lvl(d-1) once each, in order, ending at the raising frame, and "
-    "format_asynq_stack() called inside the deepest task must list lvl0..lvl(d-1) outermost first; the same holds for EVERY observation when the failed task is observed three times, when a task swallowed the failure before the caller observes it, and when a task caught it in a synchronous re-entry and then let it propagate. "
+    "format_asynq_stack() called inside the deepest task must list lvl0..lvl(d-1) outermost first (also for one function awaiting itself 1200, 12000 and - thorough - 40000 levels deep, beyond the recursion limit of 10000 the worker runs with); the same holds for EVERY observation when the failed task is observed three times, when a task swallowed the failure before the caller observes it, and when a task caught it in a synchronous re-entry and then let it propagate. "
     "(b) filter_traceback on seeded line lists assembled from foreign lines, complete boilerplate runs of the three "
     "patterns, partial runs of every length at every position incl. the very end, and shuffled boilerplate: equality "
     "with an independent reference rewriting, plus structure (non-marker output is an in-order subsequence of the "
@@ -82,6 +82,8 @@ def plan(tier, seed, build, scale):
     per = 4
     for a in range(0, len(depths), per):
         units.append({"mode": "chain", "depths": depths[a : a + per], "variants": 24 if tier == "quick" else 60, "cases": [a, a + 1]})
+    # chains far deeper than the interpreter's recursion limit (one function awaiting itself)
+    units.append({"mode": "deepstack", "depths": [1200, 12000] if tier == "quick" else [1200, 12000, 40000], "cases": [0, 1], "case_timeout": 200})
     nf = int((3000 if tier == "quick" else 400000) * scale)
     nfu = 4 if tier == "quick" else 16
     for a in range(0, nf, max(1, nf // nfu)):
@@ -147,6 +149,64 @@ def lvl%(i)d():
         # else: like code typed into a REPL or built with exec(): no source available
         exec(compile(text, fname, "exec"), ns)
     return ns
+
+
+def run_deepstack_unit(unit, res, c, progress):
+    """format_asynq_stack() and the glued traceback at depths beyond sys.getrecursionlimit()."""
+    import asynq
+    from asynq import asynq as A
+    from asynq import debug as adebug
+
+    progress(0)
+    got = {}
+
+    @A()
+    def lvl_deep(n, fail):
+        if n == 0:
+            try:
+                got["stack"] = adebug.format_asynq_stack()
+            except BaseException as e:
+                got["stack_exc"] = e
+            if fail:
+                raise UserErr("deep boom")
+            return 0
+        v = yield lvl_deep.asynq(n - 1, fail)
+        return v
+
+    for d in unit["depths"]:
+        for fail in (False, True):
+            tl.tick()
+            asynq.scheduler.reset()
+            got.clear()
+            err = None
+            try:
+                lvl_deep(d, fail)
+            except UserErr as e:
+                err = e
+            except BaseException as e:
+                res["violations"].append({"oracle": "deep-chain-raised", "mechanism": "deep-chain-raised", "detail": {"depth": d, "exc": exc_desc(e)}, "case": dict(unit, depths=[d])})
+                continue
+            res["evaluations"] += 1
+            res["nontrivial"].append(hash(("deepstack", d, fail)) & 0xFFFFFFFFFFFF)
+            c["deep_chains"] = c.get("deep_chains", 0) + 1
+            c["max_stack_depth_formatted"] = max(c.get("max_stack_depth_formatted", 0), d)
+            viol = []
+            if "stack_exc" in got:
+                viol.append(("format_asynq_stack-raised", {"exc": exc_desc(got["stack_exc"])}))
+            elif got.get("stack") is None or len(got["stack"]) != d + 1:
+                viol.append(("format_asynq_stack", {"entries": None if got.get("stack") is None else len(got["stack"]), "expected": d + 1}))
+            elif not all("lvl_deep" in s_ for s_ in got["stack"]):
+                viol.append(("format_asynq_stack", {"entries_not_naming_the_task": sum(1 for s_ in got["stack"] if "lvl_deep" not in s_)}))
+            if fail:
+                if err is None:
+                    viol.append(("chain-error-did-not-escape", {}))
+                else:
+                    n = sum(1 for x in tb_names(err) if x == "lvl_deep")
+                    if n != d + 1:
+                        viol.append(("traceback-frames", {"frames_of_the_chain": n, "expected": d + 1}))
+            for v in viol:
+                res["violations"].append({"oracle": v[0], "mechanism": v[0] + "/beyond-recursion-limit", "detail": dict(v[1], depth=d, failing=fail), "case": dict(unit, depths=[d])})
+    res["samples"].append({"deep stack depths": unit["depths"]})
 
 
 def tb_names(e):
@@ -718,6 +778,7 @@ def run_objects_fixed(unit, res, c, progress):
         diag(ovc, "_AsyncScopedValueOverrideContext", "payload", viol, c, stats)
         diag(async_override(Holder, "x", pv), "_AsyncPropertyOverrideContext", "payload", viol, c, stats)
         diag(ConstFuture(pv), "ConstFuture", "payload", viol, c, stats)
+        diag(Value(pv), "Value", "payload", viol, c, stats)
         fpl = Future(lambda pv=pv: pv)
         diag(fpl, "Future", "payload-uncomputed", viol, c, stats)
         fpl.value()
@@ -765,6 +826,8 @@ def run_unit(unit, progress):
     m = unit["mode"]
     if m == "chain":
         run_chain_unit(unit, res, c, progress)
+    elif m == "deepstack":
+        run_deepstack_unit(unit, res, c, progress)
     elif m == "filter":
         run_filter_unit(unit, res, c, progress)
     elif m == "format_error":
@@ -778,7 +841,7 @@ def run_unit(unit, progress):
 
 def reach(c, tier):
     out = []
-    for k in ("chains", "chains_with_reraise", "chains_with_batch_awaits", "chains_with_some_levels_without_source", "filter_inputs", "filter_complete_runs", "filter_partial_runs", "filter_inputs_ending_inside_a_run", "format_error_calls", "object_states_printed", "fixed_object_states_printed"):
+    for k in ("chains", "chains_with_reraise", "chains_with_batch_awaits", "chains_with_some_levels_without_source", "filter_inputs", "filter_complete_runs", "filter_partial_runs", "filter_inputs_ending_inside_a_run", "format_error_calls", "object_states_printed", "fixed_object_states_printed", "deep_chains"):
         if not c.get(k):
             out.append("%s is zero" % k)
     return out
